@@ -445,6 +445,7 @@ def tasks(tier, seed):
     for lib in LIBS:
         for sl in range(4): t.append(('c', lib, sl, 4, tier, seed))
     for lib in D_MENU: t.append(('d', lib, tier, seed))
+    t.append(('e', tier, seed))
     if tier == 'thorough': t = F.slice_t3_tasks(t, 1000)
     return t
 
@@ -482,6 +483,11 @@ def run_task(task):
                     for ctx in (0, 1, 2):
                         check_b(res, {'kind': 'b', 'impl': text, 'conn_in': list(conn_in), 'conn_out': list(conn_out), 'ctx': ctx})
         if not res.samples: res.samples.append({'kind': 'b', 'impl': 'input(a,b) output(y,z) y=AND2(a,b) z=INV1(y)', 'conn_in': [True, False], 'conn_out': [False, True], 'ctx': 2})
+    elif task[0] == 'e':
+        for perm in itertools.permutations((0, 1)):
+            for conn_out in ((True, True), (True, False), (False, True)):
+                for inner in ('dff', 'latch2'):
+                    check_e(res, {'kind': 'e', 'perm': list(perm), 'conn_out': list(conn_out), 'inner': inner})
     elif task[0] == 'd':
         for k in (2, 3, 4, 5):
             for order in itertools.permutations(range(5), k):
@@ -525,12 +531,58 @@ def run_task(task):
 def replay(case):
     common.setup_kyupy()
     res = common.Result()
-    {'a': check_a, 'b': check_b, 'c': check_c, 'd': check_d}[case['kind']](res, case)
+    {'a': check_a, 'b': check_b, 'c': check_c, 'd': check_d, 'e': check_e}[case['kind']](res, case)
     return res.violations
 
 
+def check_e(res, case):
+    """An implementation whose output ports are driven DIRECTLY by the pins of a multi-output node (flip-flop Q = pin 0, QN = pin 1), with
+    the ports listed in another order than the pins and/or only the higher pin used."""
+    from kyupy.circuit import Circuit, Node, Line
+    res.evals += 1
+    perm, conn_out, inner = case['perm'], case['conn_out'], case['inner']
+    key = f'C10/e/{inner}/perm{"".join(map(str, perm))}/out{"".join(str(int(x)) for x in conn_out)}'
+    try:
+        impl = Circuit('impl')
+        a = Node(impl, 'a', 'input'); ck = Node(impl, 'ck', 'input')
+        outs = [Node(impl, 'p0', 'output'), Node(impl, 'p1', 'output')]
+        for n in [a, ck] + outs: impl.io_nodes.append(n)
+        ff = Node(impl, 'ff', 'DFF' if inner == 'dff' else 'DFFX1')
+        Line(impl, a, (ff, 0)); Line(impl, ck, (ff, 1))
+        for j, o in enumerate(outs): Line(impl, (ff, perm[j]), o)      # port j is driven by pin perm[j] of the flip-flop
+        c = Circuit('ctx')
+        x = Node(c, 'x', 'input'); k = Node(c, 'k', 'input')
+        ys = [Node(c, 'y0', 'output'), Node(c, 'y1', 'output')]
+        for n in [x, k] + ys: c.io_nodes.append(n)
+        u = Node(c, 'u', 'MYFF')
+        Line(c, x, (u, 0)); Line(c, k, (u, 1))
+        for j, y in enumerate(ys):
+            if conn_out[j]: Line(c, (u, j), y)
+        sn0 = snames(c)
+        c.substitute(u, impl)
+        for what, msg in invariants(c):
+            res.violation(key + f'/invariant-{what}', case, msg)
+        names, obs = tt(c, out_names=['y0', 'y1'])
+        states = [v for v in names if v.startswith('s:')]
+        if len(states) != 1 or [v for v in names if v.startswith('i:')] != ['i:x', 'i:k'] or snames(c)[:4] != sn0[:4]:
+            res.violation(key + '/names', case, f'after substitute: variables {names}, s_nodes {snames(c)}'); return
+        nv = len(names); npat = 1 << nv; mask = (1 << npat) - 1
+        col = {nm: sum(1 << p for p in range(npat) if (p >> i) & 1) for i, nm in enumerate(names)}
+        st = col[states[0]]
+        exp = {'d:' + states[0][2:]: col['i:x']}
+        for j in range(2):
+            if conn_out[j]: exp[f'o:y{j}'] = st if perm[j] == 0 else (~st & mask)
+        if obs != exp:
+            bad = sorted(kk for kk in set(obs) | set(exp) if obs.get(kk) != exp.get(kk))
+            res.violation(key + '/function', case, f'after substitute: {bad} got {[obs.get(b) for b in bad]} expected {[exp.get(b) for b in bad]} (port j driven by flip-flop pin {perm})')
+        res.count('e_cases')
+        res.sig(('e', inner, tuple(perm), tuple(conn_out)))
+    except Exception as ex:
+        res.violation(key + f'/exception-{type(ex).__name__}', case, traceback.format_exc()[-1500:])
+
+
 def finish(agg, tier):
-    need = ['a_elim', 'a_elim_state_last', 'b_cases', 'b_unconnected_input', 'c_cases', 'c_open_pin', 'c_with_node_deletions', 'd_cases']
+    need = ['e_cases', 'a_elim', 'a_elim_state_last', 'b_cases', 'b_unconnected_input', 'c_cases', 'c_open_pin', 'c_with_node_deletions', 'd_cases']
     missing = [k for k in need if not agg.counters.get(k)]
     if missing: raise common.HarnessError(f'vacuity guard: {missing} zero')
     return {}
